@@ -73,13 +73,16 @@ Section Spec.
     (* a document may be opened with ANY text (AOpenWith: a restored unsaved buffer): with the repaired didOpen - flag
        fix_didopen - that is an unsaved edit like any other; without it, it is the finding class open_text below *)
     (* saving a buffer whose file is gone re-creates the file: a client's watcher then also reports the creation,
-       which this action does not send *)
-    | ASave f => ahas (disk w) f || negb (ahas (ebuf w) f)
+       which this action does not send. With the changed-unknown repair - flag fix_changed_unknown - the didSave alone
+       makes the file join the project again (HandleFileEventChanges handles its Changed event like Created) *)
+    | ASave f => fix_changed_unknown fx || ahas (disk w) f || negb (ahas (ebuf w) f)
     (* a watched-files notification names every file once, workspace files only (the client watches the workspace);
-       "changed" is only said of a file that exists *)
+       before the repair of the class changed_unknown - flag fix_changed_unknown - "changed" is only said of a file that
+       was there before; the repaired code handles "changed" of a new file like "created", so a watcher may report a new
+       file either way *)
     | AWatched l =>
       fnodup (map (witem_file A) l) && forallb (fun i => in_dir A (witem_file A i)) l &&
-      forallb (fun i => match i with WM f _ => ahas (disk w) f | _ => true end) l
+      forallb (fun i => match i with WM f _ => fix_changed_unknown fx || ahas (disk w) f | _ => true end) l
     | _ => true
     end.
 
